@@ -4,6 +4,7 @@ Everything here works on the JSON facts written by /verif/driver (MIR *before* t
 coroutine transform).  Nothing in this file knows about a particular property.
 """
 import json
+import os
 import re
 import sys
 from collections import defaultdict, deque
@@ -278,6 +279,119 @@ class Body:
             blocks.append(Block(i, stmts, Term(k, d, line, macros), b.get("cleanup", False)))
         self._blocks = blocks
         self.raw = None  # free
+        self._inline_new_fns()
+
+    # --- inlining of functions that did not exist when the rules were reviewed --------------
+    def _inline_new_fns(self):
+        """Splice the bodies of *new* local functions (not listed in tables/known_fns.txt: helpers extracted by a later edit) into this
+        body at their call sites, so that every rule sees the code where it was when the rule was written. Synchronous, non-recursive
+        functions only; a new async fn stays an opaque call. On the reviewed tree nothing is new and this is a no-op."""
+        prog = self.prog
+        new = prog.new_fns
+        if not new or self.kind not in ("Fn", "AssocFn", "Closure"):
+            return
+        if self.path in prog._inlining:
+            return
+        prog._inlining.add(self.path)
+        try:
+            budget = 40
+            i = 0
+            while i < len(self._blocks) and budget > 0:
+                blk = self._blocks[i]
+                t = blk.term
+                i += 1
+                if t.kind != "call" or blk.cleanup or t.d.get("t") is None:
+                    continue
+                c = t.d.get("r") or t.d.get("f")
+                if c not in new or c in prog._inlining or c == self.path:
+                    continue
+                cal = prog.bodies.get(c)
+                if cal is None or cal.coroutine or cal.kind not in ("Fn", "AssocFn") or (c + "::{closure#0}") in prog.coroutine_paths:
+                    continue
+                if len(cal.blocks) > 250 or cal.argc != len(t.d["args"]):
+                    continue
+                self._splice(blk, cal)
+                prog.inlined.append((self.path, c))
+                budget -= 1
+        finally:
+            prog._inlining.discard(self.path)
+
+    def _splice(self, blk, cal):
+        t = blk.term
+        lo = len(self._local_tys)
+        self._local_tys.extend(cal.local_tys)
+        bo = len(self._blocks)
+        ret_target = t.d["t"]
+        dest = t.d["d"]
+
+        def mp(p_):
+            return Place(p_.local + lo, p_.proj, p_.ty)
+
+        def mo(o):
+            if o is None:
+                return None
+            if o.kind == "const":
+                c = o.const
+                if "promoted" in c and "pbody" not in c:
+                    c = dict(c)
+                    c["pbody"] = cal
+                return Operand("const", const=c)
+            return Operand(o.kind, mp(o.place))
+
+        def mrv(rv):
+            out = dict(rv)
+            for k in ("a", "b"):
+                if isinstance(rv.get(k), Operand):
+                    out[k] = mo(rv[k])
+            if isinstance(rv.get("p"), Place):
+                out["p"] = mp(rv["p"])
+            if rv.get("ops") is not None:
+                out["ops"] = [mo(o) for o in rv["ops"]]
+            return out
+
+        # arguments -> the callee's parameter locals
+        for k, a in enumerate(t.d["args"]):
+            blk.stmts.append(Stmt(Place(lo + 1 + k), {"k": "use", "a": a}, t.line, t.macros))
+        blk.term = Term("goto", {"t": bo, "false": False}, t.line, t.macros)
+        for cb in cal.blocks:
+            stmts = [Stmt(mp(st.dest), mrv(st.rv) if st.kind == "assign" else dict(st.rv), st.line, st.macros, st.kind) for st in cb.stmts]
+            ct = cb.term
+            k = ct.kind
+            d = dict(ct.d)
+            if k == "switch":
+                d["a"] = mo(ct.d["a"])
+                d["ts"] = [(v, bb + bo) for v, bb in ct.d["ts"]]
+                d["o"] = ct.d["o"] + bo if ct.d["o"] is not None else None
+            elif k == "call":
+                d["args"] = [mo(a) for a in ct.d["args"]]
+                d["d"] = mp(ct.d["d"])
+                d["t"] = ct.d["t"] + bo if ct.d.get("t") is not None else None
+                if "fp" in ct.d:
+                    d["fp"] = mo(ct.d["fp"])
+            elif k == "assert":
+                d["cond"] = mo(ct.d["cond"])
+                d["ops"] = [mo(a) for a in ct.d["ops"]]
+                d["t"] = ct.d["t"] + bo
+            elif k == "drop":
+                d["p"] = mp(ct.d["p"])
+                d["t"] = ct.d["t"] + bo
+            elif k == "goto":
+                d["t"] = ct.d["t"] + bo
+            elif k == "yield":
+                d["t"] = ct.d["t"] + bo
+            if k == "return":
+                stmts.append(Stmt(dest, {"k": "use", "a": Operand("move", Place(lo))}, ct.line, ct.macros))
+                nt = Term("goto", {"t": ret_target, "false": False}, ct.line, ct.macros)
+            else:
+                nt = Term(k, d, ct.line, ct.macros)
+            self._blocks.append(Block(cb.idx + bo, stmts, nt, cb.cleanup))
+        self._dbg.extend((nm, mp(p_)) for nm, p_ in cal.dbg)
+        self._thread_returns(lo, dest, ret_target, bo, bo + len(cal.blocks))
+        if not hasattr(self, "frames"):
+            self.frames = []
+        self.frames.append({"ret": lo, "dest": dest, "target": ret_target, "callee": cal.path, "blocks": (bo, bo + len(cal.blocks))})
+        for fr in getattr(cal, "frames", []):
+            self.frames.append({"ret": fr["ret"] + lo, "dest": mp(fr["dest"]), "target": fr["target"] + bo, "callee": fr["callee"], "blocks": (fr["blocks"][0] + bo, fr["blocks"][1] + bo)})
 
     @property
     def blocks(self):
@@ -321,6 +435,82 @@ class Body:
             if nm == name and p.is_local():
                 out.append(p.local)
         return out
+
+    def _thread_returns(self, ret_local, dest, target, b0, b1):
+        """Jump threading for an inlined helper whose result is immediately discriminated by the caller (`helper()?`, `match helper()`,
+        `if let .. = helper()`, `if helper()`): a callee path that ends by constructing a known variant / constant goes straight to the
+        caller's arm for that variant. Without it every callee path merges at the helper's return and the caller's arm is dominated by
+        none of the helper's own tests - the shape the code had before the helper was extracted is restored."""
+        if not dest.is_local():
+            return
+        D = dest.local
+        blocks = self._blocks
+        T = blocks[target]
+        arms = None  # variant name / bool -> block
+        kind = None
+        def only_trivial(stmts, allow=()):
+            return all(st.kind == "assign" and (id(st) in allow) for st in stmts)
+        t = T.term
+        if t.kind == "call" and ((t.d.get("f") or "").endswith("Try::branch") or (t.d.get("r") or "").endswith("::Try>::branch")) and len(t.d["args"]) == 1 and not t.d["args"][0].is_const() and t.d["args"][0].place.is_local() and t.d["args"][0].place.local == D and not T.stmts and t.d.get("t") is not None:
+            T2 = blocks[t.d["t"]]
+            if T2.term.kind == "switch" and len(T2.stmts) == 1 and T2.stmts[0].rv.get("k") == "discr" and T2.stmts[0].rv["p"].local == t.d["d"].local:
+                m = dict(T2.term.d["ts"])
+                if 0 in m and 1 in m:
+                    arms = {"Ok": m[0], "Some": m[0], "Err": m[1], "None": m[1], "from_residual": m[1]}
+                    kind = "try"
+        elif t.kind == "switch" and len(T.stmts) == 1 and T.stmts[0].rv.get("k") == "discr" and T.stmts[0].rv["p"].is_local() and T.stmts[0].rv["p"].local == D:
+            enum = T.stmts[0].rv.get("enum")
+            vs = dict((d_, n_) for d_, n_ in self.prog.enum_variants(enum)) if enum else {}
+            if enum and enum.endswith("option::Option"):
+                vs = {0: "None", 1: "Some"}
+            elif enum and enum.endswith("result::Result"):
+                vs = {0: "Ok", 1: "Err"}
+            m = dict(T.term.d["ts"])
+            arms = {}
+            for d_, n_ in vs.items():
+                arms[n_] = m.get(d_, T.term.d["o"])
+            if "Err" in arms:
+                arms["from_residual"] = arms["Err"]
+            elif "None" in arms:
+                arms["from_residual"] = arms["None"]
+            kind = "match"
+        elif t.kind == "switch" and not T.stmts and not t.d["a"].is_const() and t.d["a"].place.is_local() and t.d["a"].place.local == D and t.d.get("ty") == "bool":
+            m = dict(t.d["ts"])
+            arms = {False: m.get(0, t.d["o"]), True: t.d["o"] if 0 in m else m.get(1, t.d["o"])}
+            kind = "bool"
+        if not arms:
+            return
+        # the copied return block(s): `D = move ret_local; goto target`
+        rets = [b for b in blocks[b0:b1] if b.term.kind == "goto" and b.term.d["t"] == target and b.stmts and b.stmts[-1].dest == dest and b.stmts[-1].rv.get("k") == "use" and not b.stmts[-1].rv["a"].is_const() and b.stmts[-1].rv["a"].place.local == ret_local and len(b.stmts) == 1]
+        retset = {b.idx for b in rets}
+        if not retset:
+            return
+        for P in blocks[b0:b1]:
+            if P.cleanup:
+                continue
+            tk = P.term.kind
+            variant = None
+            if tk == "goto" and P.term.d["t"] in retset:
+                # last assignment to the return local inside P
+                for st in reversed(P.stmts):
+                    if st.kind == "assign" and st.dest.is_local() and st.dest.local == ret_local:
+                        rv = st.rv
+                        if rv["k"] == "agg" and rv.get("ak") == "enum":
+                            variant = rv["var"]
+                        elif rv["k"] == "use" and rv["a"].is_const() and rv["a"].value() in (0, 1) and kind == "bool":
+                            variant = bool(rv["a"].value())
+                        break
+                if variant is None or variant not in arms:
+                    continue
+                n = Block(len(blocks), [Stmt(dest, {"k": "use", "a": Operand("move", Place(ret_local))}, P.term.line, P.term.macros)], Term("goto", {"t": arms[variant], "false": False}, P.term.line, P.term.macros), False)
+                blocks.append(n)
+                P.term = Term("goto", {"t": n.idx, "false": False}, P.term.line, P.term.macros)
+            elif tk == "call" and P.term.d.get("t") in retset and P.term.d["d"].is_local() and P.term.d["d"].local == ret_local and (P.term.d.get("f") or "").endswith("from_residual") and "from_residual" in arms:
+                n = Block(len(blocks), [Stmt(dest, {"k": "use", "a": Operand("move", Place(ret_local))}, P.term.line, P.term.macros)], Term("goto", {"t": arms["from_residual"], "false": False}, P.term.line, P.term.macros), False)
+                blocks.append(n)
+                d = dict(P.term.d)
+                d["t"] = n.idx
+                P.term = Term("call", d, P.term.line, P.term.macros)
 
     # --- CFG -------------------------------------------------------------------------------
     def succs(self, i):
@@ -524,6 +714,40 @@ class Program:
         self.n_bodies = len(self.bodies)
         self._callgraph = None
         self._children = None
+        # functions that did not exist on the reviewed tree (see Body._inline_new_fns)
+        self._inlining = set()
+        self.inlined = []
+        self.coroutine_paths = {p for p, b in self.bodies.items() if b.coroutine}
+        self.new_fns = set()
+        kf = os.path.join(os.path.dirname(os.path.dirname(os.path.abspath(__file__))), "tables", "known_fns.txt")
+        if os.path.exists(kf) and not os.environ.get("VERIF_NO_INLINE"):
+            with open(kf) as f:
+                known = {l.strip() for l in f if l.strip() and not l.startswith("#")}
+            if any(k.startswith(self.crate + "::") or ("<" + self.crate + "::") in k for k in known):
+                self.new_fns = {p for p, b in self.bodies.items() if b.kind in ("Fn", "AssocFn") and "{closure" not in p and p not in known and "::test" not in p and "::tests::" not in p}
+        self.absorbed = {}
+        if self.new_fns:
+            self._absorb_new_fns()
+
+    def _absorb_new_fns(self):
+        """Inline every new function everywhere (decoding does it), then take those that are no longer called anywhere out of the
+        body table: a census over all bodies must attribute their code to the callers, not count them as bodies of their own."""
+        for b in list(self.bodies.values()):
+            b.blocks
+        still = set()
+        for b in self.bodies.values():
+            for blk in b.blocks:
+                if blk.term.kind == "call":
+                    c = blk.term.d.get("r") or blk.term.d.get("f")
+                    if c in self.new_fns:
+                        still.add(c)
+                for st in blk.stmts:
+                    if st.kind == "assign":
+                        for o in [st.rv.get("a"), st.rv.get("b")] + list(st.rv.get("ops") or []):
+                            if isinstance(o, Operand) and o.kind == "const" and o.const.get("fn") in self.new_fns:
+                                still.add(o.const["fn"])  # taken as a function value: stays a body
+        for p in sorted(self.new_fns - still):
+            self.absorbed[p] = self.bodies.pop(p)
 
     def fix_path(self, p):
         if p is None:
@@ -822,9 +1046,69 @@ class Sym:
             e = ("mutated", e)
             self.memo[l] = e
             return e
+        src = self._copy_source(l)
+        if src is not None and src not in stack:
+            e = self.local_expr(src, depth + 1, stack + (l,))
+            self.memo[l] = e
+            return e
         e = ("var", b.local_name(l) or "_%d" % l)
         self.memo[l] = e
         return e
+
+    def _live_defs(self, l):
+        b = self.body
+        live = b.live_blocks()
+        return [d for d in b.defs.get(l, []) if d[0] in live]
+
+    def _copy_source(self, l):
+        """If every live definition of local l is a plain copy/move of one and the same bare local X (the hand-over blocks that jump
+        threading creates for an inlined helper's result), X; else None."""
+        b = self.body
+        defs = self._live_defs(l)
+        if len(defs) < 2 or b.partial_writes(l):
+            return None
+        src = None
+        for blk, si in defs:
+            if si == "term":
+                return None
+            rv = b.blocks[blk].stmts[si].rv
+            if rv["k"] != "use" or rv["a"].is_const() or not rv["a"].place.is_local():
+                return None
+            x = rv["a"].place.local
+            if src is None:
+                src = x
+            elif src != x:
+                return None
+        return src
+
+    def _variant_def(self, l, variant, hops=0):
+        """The unique live definition of local l (through hand-over copies) that constructs enum variant `variant`: a downcast to
+        that variant can only observe a value built as that variant."""
+        b = self.body
+        if hops > 4 or 1 <= l <= b.argc:
+            return None
+        defs = self._live_defs(l)
+        if len(defs) < 2:
+            if len(defs) == 1 and defs[0][1] != "term":
+                rv = b.blocks[defs[0][0]].stmts[defs[0][1]].rv
+                if rv["k"] == "use" and not rv["a"].is_const() and rv["a"].place.is_local():
+                    return self._variant_def(rv["a"].place.local, variant, hops + 1)
+            return None
+        src = self._copy_source(l)
+        if src is not None:
+            return self._variant_def(src, variant, hops + 1)
+        hits = []
+        for blk, si in defs:
+            if si == "term":
+                continue
+            rv = b.blocks[blk].stmts[si].rv
+            if rv["k"] == "agg" and rv.get("ak") == "enum" and rv.get("var") == variant:
+                hits.append((blk, si))
+        if len(hits) == 1:
+            return hits[0]
+        if 2 <= len(hits) <= 4 and b.local_name(l) is None:
+            return hits  # several arms build this variant in an unnamed temporary: the caller gets a phi over them
+        return None
 
     def def_expr(self, blk, si, depth=0, stack=()):
         b = self.body
@@ -857,8 +1141,24 @@ class Sym:
         return ("call", callee, args)
 
     def place_expr(self, p, depth=0, stack=()):
-        e = self.local_expr(p.local, depth, stack)
-        for pr in p.proj:
+        e = None
+        first = next((pr for pr in p.proj if pr != "*"), None)
+        if first is not None and first.startswith("@") and p.local not in stack:
+            vd = self._variant_def(p.local, first[1:])
+            if isinstance(vd, list):
+                alts = tuple(self.def_expr(x[0], x[1], depth + 1, stack + (p.local,)) for x in vd)
+                e = alts[0] if all(a == alts[0] for a in alts) else ("phi", alts)
+            elif vd is not None:
+                e = self.def_expr(vd[0], vd[1], depth + 1, stack + (p.local,))
+        if e is None:
+            e = self.local_expr(p.local, depth, stack)
+        if e[0] == "phi":
+            rest = p.proj
+            return ("phi", tuple(self._project(a, rest) for a in e[1]))
+        return self._project(e, p.proj)
+
+    def _project(self, e, proj):
+        for pr in proj:
             if pr == "*":
                 continue
             if pr.startswith("."):
@@ -900,7 +1200,7 @@ class Sym:
             if "fn" in c:
                 return ("fn", c["fn"])
             if "promoted" in c:
-                pe = self.body.promoted_expr(c["promoted"])
+                pe = (c.get("pbody") or self.body).promoted_expr(c["promoted"])
                 if pe is not None and pe[0] != "var":
                     return pe
             if "v" in c:
@@ -973,7 +1273,7 @@ def expr_children(e):
         return tuple(x for _, x in e[3])
     if k == "closure":
         return e[2]
-    if k == "tuple":
+    if k in ("tuple", "phi"):
         return e[1]
     return ()
 
@@ -1027,6 +1327,8 @@ def expr_str(e, depth=0):
         return "closure %s[%s]" % (short(e[1]), ", ".join(expr_str(x, depth + 1) for x in e[2]))
     if k == "tuple":
         return "(%s)" % ", ".join(expr_str(x, depth + 1) for x in e[1])
+    if k == "phi":
+        return "phi(%s)" % " | ".join(expr_str(x, depth + 1) for x in e[1])
     if k == "mutated":
         return "mut " + expr_str(e[1], depth + 1)
     if k in ("poll", "await", "awaitv"):
@@ -1333,19 +1635,41 @@ class GuardIndex:
         for l in locs:
             defs = [d for d in body.defs.get(l, []) if d[0] in body.live_blocks()]
             matching = []
+            computed = []  # arms that store a computed bool (the `b` of a stored `a && b` / `a || b`, a helper's tail expression)
             ok = True
             for blk, si in defs:
                 if si == "term":
+                    if body.blocks[blk].term.kind == "call" and not body.blocks[blk].cleanup:
+                        computed.append((blk, si))
+                        continue
                     ok = False
                     break
                 rv = body.blocks[blk].stmts[si].rv
                 if rv["k"] == "use" and rv["a"].is_const() and rv["a"].value() in (0, 1):
                     if bool(rv["a"].value()) == g.truth:
                         matching.append(blk)
+                elif rv["k"] in ("use", "bin", "un"):
+                    computed.append((blk, si))
                 else:
                     ok = False
                     break
-            if ok and len(matching) == 1:
+            if ok and not matching and len(computed) == 1 and len(defs) > 1:
+                # the only way to hold this truth value is the computed arm: what dominates it holds, and so does `expr == truth`
+                blk, si = computed[0]
+                extra.extend(self.dominating(blk, _depth=depth + 1))
+                try:
+                    e = self.sym.def_expr(blk, si)
+                    g2 = _bool_guard(e, g.truth, edge=g.edge, line=g.line, macros=g.macros)
+                    if g2 is not None and not (g2.kind == "bool" and g2.a == g.a):
+                        extra.append(g2)
+                        if g2.alt is not None:
+                            extra.append(g2.alt)
+                        extra.extend(self._resolve_bool_temp(g2, depth + 1))
+                except Exception:
+                    pass
+            elif ok and computed:
+                pass  # a disjunction over computed arms: nothing simple holds
+            elif ok and len(matching) == 1:
                 extra.extend(self.dominating(matching[0], _depth=depth + 1))
             elif ok and len(matching) > 1:
                 # several arms assign this truth value: what holds is the disjunction; variant tests on one
